@@ -666,6 +666,9 @@ pub fn val_from_seed(ty: ColType, nullable: bool, seed: u16) -> Val {
 pub fn lit_from_seed(ty: ColType, seed: u16) -> Val {
     match val_from_seed(ty, false, seed | 1) {
         Val::Null => val_from_seed(ty, false, 3),
+        // i64::MIN cannot be written as an SQL integer literal (`-9223372036854775808` is the negation of a number
+        // that does not fit i64 and is evaluated in floating point): values may be i64::MIN, literals stop one above
+        Val::I(x) if x == i64::MIN as i128 => Val::I(x + 1),
         v => v,
     }
 }
